@@ -22,6 +22,7 @@ def main(argv):
     only = None
     if "--only" in argv:
         only = argv[argv.index("--only") + 1]
+        os.environ["VP_ONLY"] = only
     try:
         mod = importlib.import_module(f"vp.props.{pid.lower()}")
     except ModuleNotFoundError as e:
